@@ -22,6 +22,7 @@ UNITS = {
     ],
     "C05": [
         {"name": "C05_BIN", "test": "TestC05_BIN", "quick": 480, "thorough": 40000, "shards": 8, "bin": True},
+        {"name": "C05_CONC", "test": "TestC05_CONC", "quick": 60, "thorough": 2000, "shards": 2, "bin": True},
     ],
     "C06": [
         {"name": "C06_INP", "test": "TestC06_INP", "quick": 1500, "thorough": 60000, "shards": 12},
